@@ -7,7 +7,8 @@ Property theorems only.  The executable model is `Model/Errs.lean` (a heap of `*
 `Lemmas/Errs.lean`.
 
 Vocabulary: `WF h` — links of the heap point forward, stay inside the heap and never reach an empty node (the driver
-evaluates the Boolean form `wfb` on every heap it builds without `CloneWithPrefixMessage`; `wf_of_wfb`);
+evaluates the Boolean form `wfb` on every heap it builds without `CloneWithPrefixMessage`; `wf_of_wfb`; `reachable_wf`
+proves it for every heap the API can build without `CloneWithPrefixMessage`);
 `argItems h v` — the non-nil, non-empty errors contained in the value `v`, aggregates flattened;
 `accOf acc args` / `restOf acc args` — the effective accumulator and the appended arguments (design Appendix B: a nil
 `err` makes the first non-nil argument the accumulator); `NoAlias h acc args` — no appended argument's chain ends in
@@ -184,6 +185,24 @@ theorem wrapTyped_reaches_cause (h : Heap) (v : Val) (hv : isNil v = false) (hr 
 theorem constructors_wf (h : Heap) (hwf : WF h) (m : String) (c v : Val) :
     WF (new h m).1 ∧ WF (newWithCause h m c).1 ∧ WF (newEmpty h).1 ∧ WF (wrap h v).1 ∧ WF (wrapTyped h v).1 :=
   ⟨push_wf h _ hwf rfl, push_wf h _ hwf rfl, push_wf h _ hwf rfl, wrap_wf h v hwf, wrapTyped_wf h v hwf⟩
+
+/-- `Append` keeps the heap invariant whatever the aliasing between accumulator and arguments (no `NoAlias`) -/
+theorem append_wf_any (h : Heap) (acc : Val) (args : List Val) (hwf : WF h)
+    (hids : ∀ id, Val.ref id ∈ acc :: args → id < h.size) :
+    WF (append h acc args).1 ∧ h.size ≤ (append h acc args).1.size :=
+  Errs.append_wf_any args acc h hwf hids
+
+/-- hence every heap that `New`, `NewWithCause`, `&Error{}`, `Wrap`, `WrapTyped` and `Append` (on existing values, in
+    any order, with any aliasing) can build satisfies the invariant the `Append` theorems assume -/
+theorem reachable_wf (h : Heap) (r : Reachable h) : WF h := reachable_wf_aux r
+
+/-- NOT proved (kept visible): the content law for aliased calls — every argument is read in the heap as it is when
+    the loop reaches it, so `Append(a, b, a)` contains `a, b, a, b`.  Stated for one repeated accumulator argument. -/
+def append_alias_Statement : Prop :=
+  ∀ (h : Heap) (id : Nat) (mid : List Val), WF h → id < h.size → isEmpty h id = false →
+    (∀ id', Val.ref id' ∈ mid → id' < h.size ∧ tailOf h (fuelOf h) id ∉ chain h (fuelOf h) id') →
+    resItems (append h (.ref id) (mid ++ [.ref id])) =
+      (items h id ++ mid.flatMap (argItems h)) ++ (items h id ++ mid.flatMap (argItems h))
 
 /-! non-vacuity: a concrete well-formed heap (`x`, the aggregate `{a1, a2}`, `y`), the call `Append(x, {a1,a2}, nil,
     (*Error)(nil), plain "p", y)` satisfies every hypothesis and yields the five errors in order -/
